@@ -1,25 +1,6 @@
-(* UNBOUNDED accuracy / monotonicity / round trip of the default size rendering [render]
-   (= format_filesize n "" = humansize 2.1.3 format_size with BINARY, 2 decimals, no space).
-
-   The proofs go through two pure integer functions:
-     rnd53 n   the value of  n as f64   (round to nearest even at 53 significant bits)
-     cfun V    the value, in 1/100 byte, of the text printed for the double V:
-               unit index k = floor(log2 V / 10), U = 1024^k, text = rne(100 V / U) / 100
-   and the bridge  rendered_centibytes n = cfun (rnd53 n)  for every 0 < n < 2^64 (render_read).
-
-   Results (section 7 and the end of section 9):
-     format_monotone_all          (G2)  a <= b < 2^64 -> rendered_centibytes a <= rendered_centibytes b
-     format_accurate_f64_all      n < 2^64 -> the text is accurate for the double n is converted to
-     format_accurate_exact        n < 2^64, n a double -> accurate n
-     format_accurate_partial      (G1 for n < 2^53)
-     format_accurate_all_refuted  (G1 is FALSE on [2^53, 2^64): witness 9046605751480483)
-     format_accuracy_all          what holds for all n: half a unit + 100 * conversion error
-     format_roundtrip_all         (G3)  n < 2^50 -> roundtrips n
-   The only evaluation over a finite set is rt_chk_all: the 102301 two-decimal texts
-   1.00 .. 1024.00 (texts, not sizes), each checked against every size that renders to it,
-   for KiB .. TiB. *)
+(* Second half of the general size-rendering proofs (first half: SizeGeneralA.v; the one finite evaluation: SizeCompute.v). *)
 From Coq Require Import String ZArith NArith List Bool Lia.
-From FS Require Import lib.Str lib.Res lib.Dec lib.Fin lib.SoftF64 gen.SizeGen model.Size spec.SizeSpec proofs.SizeProofs.
+From FS Require Export lib.Str lib.Res lib.Dec lib.Fin lib.SoftF64 gen.SizeGen model.Size spec.SizeSpec proofs.SizeProofs proofs.SizeGeneralA proofs.SizeCompute.
 Import ListNotations.
 Open Scope Z_scope.
 
@@ -35,839 +16,6 @@ Arguments N.add : simpl never.
    proofs below need to unfold them (a conversion-strategy hint only, restored at the end) *)
 Strategy transparent [render accurate_text roundtrips_text centibytes_of parse_filesize format_filesize].
 
-(* ================================================================== *)
-(* 1. round-half-even division *)
-
-Lemma div_rne_mono X1 X2 Y : 0 <= X1 <= X2 -> 0 < Y -> div_rne X1 Y <= div_rne X2 Y.
-Proof.
-  intros HX HY. unfold div_rne.
-  pose proof (Z.div_mod X1 Y ltac:(lia)) as E1. pose proof (Z.mod_pos_bound X1 Y HY) as B1.
-  pose proof (Z.div_mod X2 Y ltac:(lia)) as E2. pose proof (Z.mod_pos_bound X2 Y HY) as B2.
-  set (d1 := X1 / Y) in *. set (r1 := X1 mod Y) in *. set (d2 := X2 / Y) in *. set (r2 := X2 mod Y) in *.
-  clearbody d1 r1 d2 r2.
-  assert (Hd : d1 < d2 \/ (d1 = d2 /\ r1 <= r2)) by nia.
-  destruct Hd as [Hd|[Hd Hr]].
-  - destruct (2 * r1 ?= Y), (2 * r2 ?= Y), (Z.even d1), (Z.even d2); lia.
-  - subst d2. destruct (Z.compare_spec (2 * r1) Y), (Z.compare_spec (2 * r2) Y), (Z.even d1); lia.
-Qed.
-
-Lemma div_rne_le_upper X Y T : 0 <= X -> 0 < Y -> X <= T * Y -> div_rne X Y <= T.
-Proof.
-  intros HX HY H. rewrite <- (div_rne_exact T Y HY). apply div_rne_mono; lia.
-Qed.
-
-Lemma div_rne_ge_lower X Y T : 0 <= T -> 0 < Y -> T * Y <= X -> T <= div_rne X Y.
-Proof.
-  intros HT HY H. rewrite <- (div_rne_exact T Y HY) at 1. apply div_rne_mono; [|exact HY]. nia.
-Qed.
-
-Lemma div_rne_scale X Y c : 0 < Y -> 0 < c -> div_rne (X * c) (Y * c) = div_rne X Y.
-Proof.
-  intros HY Hc. unfold div_rne.
-  rewrite Z.div_mul_cancel_r by lia. rewrite Z.mul_mod_distr_r by lia.
-  replace (2 * (X mod Y * c)) with ((2 * (X mod Y)) * c) by ring.
-  rewrite <- Zmult_compare_compat_r by lia. reflexivity.
-Qed.
-
-Lemma div_rne_nonneg X Y : 0 <= X -> 0 < Y -> 0 <= div_rne X Y.
-Proof. intros HX HY. apply div_rne_ge_lower; lia. Qed.
-
-Lemma div_rne_1 X : div_rne X 1 = X.
-Proof. rewrite <- (Z.mul_1_r X) at 1. apply div_rne_exact. lia. Qed.
-
-(* ================================================================== *)
-(* 2. the two integer functions *)
-
-Definition sh (n : Z) : Z := Z.max 0 (Z.log2 n - 52).
-Definition rnd53 (n : Z) : Z := div_rne n (2 ^ sh n) * 2 ^ sh n.
-
-Definition unit_ix (V : Z) : Z := Z.log2 V / 10.
-Definition upow (k : Z) : Z := 2 ^ (10 * k).
-Definition cfun (V : Z) : Z := div_rne (100 * V) (upow (unit_ix V)) * upow (unit_ix V).
-
-Lemma upow_pos k : 0 <= k -> 0 < upow k.
-Proof. intros. unfold upow. apply pow2_pos. lia. Qed.
-
-Lemma log2_bounds n : 0 < n -> 0 <= Z.log2 n /\ 2 ^ Z.log2 n <= n < 2 ^ (Z.log2 n + 1).
-Proof.
-  intros H. split; [apply Z.log2_nonneg|]. pose proof (Z.log2_spec n H) as Hs. rewrite <- Z.add_1_r in Hs. exact Hs.
-Qed.
-
-Lemma rnd53_small n : 0 < n < p53 -> rnd53 n = n.
-Proof.
-  intros H. unfold rnd53, sh. pose proof (log2_small n H) as Hl.
-  rewrite Z.max_l by lia. change (2 ^ 0) with 1. rewrite div_rne_1. lia.
-Qed.
-
-Lemma rnd53_lo n : 0 < n -> 2 ^ Z.log2 n <= rnd53 n.
-Proof.
-  intros H. destruct (log2_bounds n H) as [HL Hb]. unfold rnd53, sh. set (L := Z.log2 n) in *.
-  destruct (Z_le_gt_dec L 52) as [Hs|Hs].
-  - rewrite Z.max_l by lia. change (2 ^ 0) with 1. rewrite div_rne_1. lia.
-  - rewrite Z.max_r by lia. set (t := L - 52).
-    assert (Ht : 0 < 2 ^ t) by (apply pow2_pos; lia).
-    assert (E : 2 ^ L = 2 ^ 52 * 2 ^ t) by (rewrite <- pow2_add by lia; f_equal; lia).
-    assert (Hq : 2 ^ 52 <= div_rne n (2 ^ t)) by (apply div_rne_ge_lower; lia).
-    rewrite E. apply Z.mul_le_mono_nonneg_r; lia.
-Qed.
-
-Lemma rnd53_hi n : 0 < n -> rnd53 n <= 2 ^ (Z.log2 n + 1).
-Proof.
-  intros H. destruct (log2_bounds n H) as [HL Hb]. unfold rnd53, sh. set (L := Z.log2 n) in *.
-  destruct (Z_le_gt_dec L 52) as [Hs|Hs].
-  - rewrite Z.max_l by lia. change (2 ^ 0) with 1. rewrite div_rne_1. lia.
-  - rewrite Z.max_r by lia. set (t := L - 52).
-    assert (Ht : 0 < 2 ^ t) by (apply pow2_pos; lia).
-    assert (E : 2 ^ (L + 1) = 2 ^ 53 * 2 ^ t) by (rewrite <- pow2_add by lia; f_equal; lia).
-    assert (Hq : div_rne n (2 ^ t) <= 2 ^ 53) by (apply div_rne_le_upper; lia).
-    rewrite E. apply Z.mul_le_mono_nonneg_r; lia.
-Qed.
-
-Lemma rnd53_pos n : 0 < n -> 0 < rnd53 n.
-Proof.
-  intros H. pose proof (rnd53_lo n H). destruct (log2_bounds n H) as [HL _].
-  pose proof (pow2_pos (Z.log2 n) HL). lia.
-Qed.
-
-(* u64 -> f64 is monotone *)
-Lemma rnd53_mono a b : 0 < a <= b -> rnd53 a <= rnd53 b.
-Proof.
-  intros H. assert (Ha : 0 < a) by lia. assert (Hb : 0 < b) by lia.
-  pose proof (Z.log2_le_mono a b ltac:(lia)) as HL.
-  destruct (Z.eq_dec (sh a) (sh b)) as [E|NE].
-  - unfold rnd53. rewrite E.
-    assert (0 < 2 ^ sh b) by (apply pow2_pos; unfold sh; lia).
-    apply Z.mul_le_mono_nonneg_r; [lia|]. apply div_rne_mono; lia.
-  - assert (Hlt : Z.log2 a + 1 <= Z.log2 b) by (unfold sh in NE; lia).
-    apply (Z.le_trans _ (2 ^ (Z.log2 a + 1))); [apply rnd53_hi; exact Ha|].
-    apply (Z.le_trans _ (2 ^ Z.log2 b)); [|apply rnd53_lo; exact Hb].
-    apply pow2_le. pose proof (Z.log2_nonneg a). lia.
-Qed.
-
-(* relative error of the conversion: half a unit in the 53rd bit *)
-Lemma rnd53_err n : 0 < n -> 2 * Z.abs (rnd53 n - n) <= 2 ^ sh n.
-Proof.
-  intros H. unfold rnd53.
-  assert (HP : 0 < 2 ^ sh n) by (apply pow2_pos; unfold sh; lia).
-  destruct (div_rne_spec n (2 ^ sh n) ltac:(lia) HP) as (_ & Hq & _). cbv zeta in Hq.
-  rewrite <- Z.abs_opp. replace (- (div_rne n (2 ^ sh n) * 2 ^ sh n - n)) with (n - div_rne n (2 ^ sh n) * 2 ^ sh n) by ring.
-  exact Hq.
-Qed.
-
-Lemma unit_ix_bounds V : 0 < V ->
-  0 <= unit_ix V /\ upow (unit_ix V) <= V < 1024 * upow (unit_ix V).
-Proof.
-  intros H. destruct (log2_bounds V H) as [HL Hb]. unfold unit_ix, upow. set (L := Z.log2 V) in *.
-  assert (Hk : 0 <= L / 10) by (apply Z.div_pos; lia).
-  assert (Hdm : 10 * (L / 10) <= L < 10 * (L / 10) + 10) by (Z.div_mod_to_equations; lia).
-  set (k := L / 10) in *. split; [exact Hk|].
-  assert (H1 : 2 ^ (10 * k) <= 2 ^ L) by (apply pow2_le; lia).
-  assert (H2 : 2 ^ (L + 1) <= 2 ^ (10 * k + 10)) by (apply pow2_le; lia).
-  rewrite (pow2_add (10 * k) 10) in H2 by lia. change (2 ^ 10) with 1024 in H2. lia.
-Qed.
-
-Lemma unit_ix_mono V1 V2 : 0 < V1 <= V2 -> unit_ix V1 <= unit_ix V2.
-Proof.
-  intros H. unfold unit_ix. apply Z.div_le_mono; [lia|]. apply Z.log2_le_mono. lia.
-Qed.
-
-(* printing is monotone in the double, across unit boundaries too *)
-Lemma cfun_mono V1 V2 : 0 < V1 <= V2 -> cfun V1 <= cfun V2.
-Proof.
-  intros H. assert (H1 : 0 < V1) by lia. assert (H2 : 0 < V2) by lia.
-  destruct (unit_ix_bounds V1 H1) as [K1 B1]. destruct (unit_ix_bounds V2 H2) as [K2 B2].
-  pose proof (unit_ix_mono V1 V2 H) as HK. unfold cfun.
-  set (k1 := unit_ix V1) in *. set (k2 := unit_ix V2) in *.
-  pose proof (upow_pos k1 K1) as P1. pose proof (upow_pos k2 K2) as P2.
-  destruct (Z.eq_dec k1 k2) as [E|NE].
-  - rewrite E. apply Z.mul_le_mono_nonneg_r; [lia|]. apply div_rne_mono; lia.
-  - assert (HU : 1024 * upow k1 <= upow k2).
-    { unfold upow. replace 1024 with (2 ^ 10) by reflexivity. rewrite <- pow2_add by lia. apply pow2_le. lia. }
-    assert (D1 : div_rne (100 * V1) (upow k1) <= 102400) by (apply div_rne_le_upper; lia).
-    assert (D2 : 100 <= div_rne (100 * V2) (upow k2)) by (apply div_rne_ge_lower; lia).
-    assert (D0 : 0 <= div_rne (100 * V1) (upow k1)) by (apply div_rne_nonneg; lia).
-    nia.
-Qed.
-
-(* the printed value is within half a unit of the last of two decimals *)
-Lemma cfun_accurate V : 0 < V -> 2 * Z.abs (cfun V - 100 * V) <= upow (unit_ix V).
-Proof.
-  intros H. destruct (unit_ix_bounds V H) as [K _]. pose proof (upow_pos _ K) as P. unfold cfun.
-  destruct (div_rne_spec (100 * V) (upow (unit_ix V)) ltac:(lia) P) as (_ & Hq & _). cbv zeta in Hq.
-  rewrite <- Z.abs_opp.
-  replace (- (div_rne (100 * V) (upow (unit_ix V)) * upow (unit_ix V) - 100 * V))
-    with (100 * V - div_rne (100 * V) (upow (unit_ix V)) * upow (unit_ix V)) by ring.
-  exact Hq.
-Qed.
-
-Lemma cfun_nonneg V : 0 < V -> 0 <= cfun V.
-Proof.
-  intros H. destruct (unit_ix_bounds V H) as [K _]. pose proof (upow_pos _ K) as P. unfold cfun.
-  apply Z.mul_nonneg_nonneg; [apply div_rne_nonneg; lia|lia].
-Qed.
-
-(* ================================================================== *)
-(* 3. u64 -> f64 *)
-
-Lemma round_big n :
-  p53 <= n < 2 ^ 64 ->
-  round_ne false n 1 =
-  (if div_rne n (2 ^ (Z.log2 n - 52)) =? p53 then FFin false p52 (Z.log2 n - 52 + 1)
-   else FFin false (div_rne n (2 ^ (Z.log2 n - 52))) (Z.log2 n - 52)).
-Proof.
-  intros H. assert (Hn : 0 < n) by (unfold p53 in H; lia).
-  destruct (log2_bounds n Hn) as [HL Hb].
-  assert (HL53 : 53 <= Z.log2 n <= 63).
-  { split; [apply Z.log2_le_pow2; [lia|rewrite <- p53_eq; lia]|].
-    assert (Z.log2 n < 64) by (apply Z.log2_lt_pow2; lia). lia. }
-  unfold round_ne. cbv zeta. change (Z.log2 1) with 0.
-  set (L := Z.log2 n) in *.
-  replace (L + BIAS - 0) with (L + BIAS) by lia.
-  rewrite (Z.max_l (L + BIAS) 0) by (unfold BIAS; lia).
-  rewrite (Z.min_l BIAS (L + BIAS)) by lia.
-  replace (BIAS - BIAS) with 0 by lia. replace (L + BIAS - BIAS) with L by lia.
-  rewrite !shl_eq by lia. change (2 ^ 0) with 1. rewrite !Z.mul_1_r, !Z.mul_1_l.
-  assert (T : (n <? 2 ^ L) = false) by (apply Z.ltb_ge; lia). rewrite T.
-  rewrite (Z.max_l (L + BIAS - 52) 56) by (unfold BIAS; lia).
-  rewrite (Z.min_l BIAS (L + BIAS - 52)) by lia.
-  replace (BIAS - BIAS) with 0 by lia. replace (L + BIAS - 52 - BIAS) with (L - 52) by lia.
-  change (2 ^ 0) with 1. rewrite !Z.mul_1_r.
-  set (t := L - 52). assert (Ht : 0 < 2 ^ t) by (apply pow2_pos; lia).
-  assert (E : 2 ^ L = p52 * 2 ^ t) by (rewrite p52_eq, <- pow2_add by lia; f_equal; lia).
-  assert (Hq : p52 <= div_rne n (2 ^ t)) by (apply div_rne_ge_lower; unfold p52 in *; lia).
-  set (q := div_rne n (2 ^ t)) in *.
-  assert (Q0 : (q =? 0) = false) by (apply Z.eqb_neq; unfold p52 in *; lia). rewrite Q0.
-  destruct (q =? p53).
-  - replace (L + BIAS - 52 + 1 - BIAS) with (t + 1) by lia.
-    assert (O : (971 <? t + 1) = false) by (apply Z.ltb_ge; lia). rewrite O. reflexivity.
-  - replace (L + BIAS - 52 - BIAS) with t by lia.
-    assert (O : (971 <? t) = false) by (apply Z.ltb_ge; lia). rewrite O. reflexivity.
-Qed.
-
-(* the double of a nonzero u64: canonical mantissa/exponent, and its value is rnd53 n *)
-Lemma of_Z_spec n :
-  0 < n < 2 ^ 64 ->
-  exists m e, of_Z n = FFin false m e /\ p52 <= m < p53 /\ -52 <= e <= 12 /\
-              m * 2 ^ (e + 52) = rnd53 n * 2 ^ 52.
-Proof.
-  intros H. destruct (Z_lt_le_dec n p53) as [Hs|Hb].
-  - assert (Hn : 0 < n < p53) by lia.
-    rewrite (of_Z_exact n Hn), (rnd53_small n Hn). unfold of_int, of_dyadic.
-    pose proof (log2_small n Hn) as Hl. pose proof (norm_mantissa n Hn) as Hm.
-    eexists. eexists. split; [reflexivity|]. split; [exact Hm|]. split; [lia|].
-    rewrite <- Z.mul_assoc, <- pow2_add by lia. do 2 f_equal. lia.
-  - assert (Hn : 0 < n) by (unfold p53 in Hb; lia).
-    unfold of_Z.
-    assert (H0 : (n =? 0) = false) by (apply Z.eqb_neq; lia).
-    assert (H1 : (n <? 0) = false) by (apply Z.ltb_ge; lia).
-    rewrite H0, H1, Z.abs_eq by lia. rewrite (round_big n ltac:(lia)).
-    destruct (log2_bounds n Hn) as [HL HB].
-    assert (HL53 : 53 <= Z.log2 n <= 63).
-    { split; [apply Z.log2_le_pow2; [lia|rewrite <- p53_eq; lia]|].
-      assert (Z.log2 n < 64) by (apply Z.log2_lt_pow2; lia). lia. }
-    unfold rnd53, sh. rewrite Z.max_r by lia.
-    set (t := Z.log2 n - 52) in *. assert (Ht : 0 < 2 ^ t) by (apply pow2_pos; lia).
-    assert (E1 : 2 ^ Z.log2 n = p52 * 2 ^ t) by (rewrite p52_eq, <- pow2_add by lia; f_equal; lia).
-    assert (E2 : 2 ^ (Z.log2 n + 1) = p53 * 2 ^ t) by (rewrite p53_eq, <- pow2_add by lia; f_equal; lia).
-    assert (Hq1 : p52 <= div_rne n (2 ^ t)) by (apply div_rne_ge_lower; unfold p52 in *; lia).
-    assert (Hq2 : div_rne n (2 ^ t) <= p53) by (apply div_rne_le_upper; lia).
-    set (q := div_rne n (2 ^ t)) in *.
-    destruct (q =? p53) eqn:Q.
-    + apply Z.eqb_eq in Q. exists p52, (t + 1). split; [reflexivity|]. split; [unfold p52, p53; lia|].
-      split; [lia|]. rewrite Q. replace (t + 1 + 52) with (1 + t + 52) by lia.
-      rewrite !pow2_add by lia. change (2 ^ 1) with 2. unfold p52, p53. ring.
-    + apply Z.eqb_neq in Q. exists q, t. split; [reflexivity|]. split; [lia|]. split; [lia|].
-      rewrite pow2_add by lia. ring.
-Qed.
-
-(* ================================================================== *)
-(* 4. the division loop: dividing by 1024.0 only lowers the exponent *)
-
-Definition d1024 : f64 := FFin false p52 (-42).
-
-Lemma kilo_binary : kilo_value KBinary = d1024.
-Proof. vm_compute. reflexivity. Qed.
-
-Lemma div_1024 m e : p52 <= m < p53 -> -1000 <= e <= 900 ->
-  div (FFin false m e) d1024 = FFin false m (e - 10).
-Proof.
-  intros Hm He. unfold d1024, div. cbn [xorb].
-  apply round_ne_repr.
-  - left. split; [exact Hm|lia].
-  - rewrite shl_eq by lia. apply Z.mul_pos_pos; [unfold p52; lia|apply pow2_pos; lia].
-  - rewrite !shl_eq by lia. unfold BIAS. rewrite p52_eq.
-    destruct (Z_le_gt_dec 0 (e + 42)) as [Hp|Hq].
-    + rewrite (Z.max_r 0 (e - -42)) by lia. rewrite (Z.max_l 0 (-42 - e)) by lia.
-      change (2 ^ 0) with 1. rewrite Z.mul_1_r.
-      rewrite <- !Z.mul_assoc, <- !pow2_add by lia. do 2 f_equal. lia.
-    + rewrite (Z.max_l 0 (e - -42)) by lia. rewrite (Z.max_r 0 (-42 - e)) by lia.
-      change (2 ^ 0) with 1. rewrite Z.mul_1_r.
-      rewrite <- !Z.mul_assoc, <- !pow2_add by lia. do 2 f_equal. lia.
-Qed.
-
-Lemma fge_1024 m e : p52 <= m < p53 -> -1000 <= e <= 900 ->
-  fge (FFin false m e) d1024 = (-42 <=? e).
-Proof.
-  intros Hm He. unfold d1024, fge. cbn [Z.eqb]. cbv iota.
-  destruct (Z_le_gt_dec (-42) e) as [Hp|Hq].
-  - rewrite (Z.min_r e (-42)) by lia. rewrite !shl_eq by lia.
-    replace (-42 - -42) with 0 by lia. change (2 ^ 0) with 1.
-    assert (1 <= 2 ^ (e - -42)) by (pose proof (pow2_pos (e - -42) ltac:(lia)); lia).
-    assert (G : (-42 <=? e) = true) by (apply Z.leb_le; lia). rewrite G.
-    apply Z.leb_le. unfold p52 in *. nia.
-  - rewrite (Z.min_l e (-42)) by lia. rewrite !shl_eq by lia.
-    replace (e - e) with 0 by lia. change (2 ^ 0) with 1.
-    assert (2 ^ 1 <= 2 ^ (-42 - e)) by (apply pow2_le; lia). change (2 ^ 1) with 2 in *.
-    assert (G : (-42 <=? e) = false) by (apply Z.leb_gt; lia). rewrite G.
-    apply Z.leb_gt. unfold p52, p53 in *. nia.
-Qed.
-
-Lemma div_auto_steps : forall (k fuel : nat) m e idx,
-  (k <= fuel)%nat -> p52 <= m < p53 -> e <= 900 -> -52 <= e - 10 * Z.of_nat k <= -43 ->
-  div_auto fuel d1024 (FFin false m e) idx = Some (FFin false m (e - 10 * Z.of_nat k), (idx + k)%nat).
-Proof.
-  induction k as [|k IH]; intros fuel m e idx Hf Hm He Hk.
-  - replace (e - 10 * Z.of_nat 0) with e in * by lia. rewrite Nat.add_0_r.
-    assert (G : fge (FFin false m e) d1024 = false) by (rewrite fge_1024 by lia; apply Z.leb_gt; lia).
-    destruct fuel; cbn [div_auto]; rewrite G; reflexivity.
-  - destruct fuel as [|fuel]; [lia|].
-    assert (G : fge (FFin false m e) d1024 = true) by (rewrite fge_1024 by lia; apply Z.leb_le; lia).
-    cbn [div_auto]. rewrite G, div_1024 by lia.
-    rewrite Nat2Z.inj_succ in Hk.
-    rewrite (IH fuel m (e - 10) (S idx)); [|lia|exact Hm|lia|lia].
-    rewrite Nat2Z.inj_succ. f_equal. f_equal; [f_equal; lia|lia].
-Qed.
-
-(* ================================================================== *)
-(* 5. the rendered text and its reader *)
-
-Definition no_k (x : str) : bool := forallb (fun c => negb (c =? 107)%N) x.
-
-Lemma replace_fuel_no_k rep : forall fuel x, no_k x = true -> replace_fuel fuel (s "kB") rep x = x.
-Proof.
-  induction fuel as [|fuel IH]; intros x H; [reflexivity|]. destruct x as [|c r]; [reflexivity|].
-  cbn [replace_fuel]. unfold no_k in H. cbn [forallb] in H. apply andb_true_iff in H. destruct H as [Hc Hr].
-  assert (St : starts_with (s "kB") (c :: r) = false).
-  { change (s "kB") with [107%N; 66%N]. cbn [starts_with]. apply negb_true_iff in Hc.
-    rewrite N.eqb_sym, Hc. reflexivity. }
-  rewrite St. f_equal. apply IH. exact Hr.
-Qed.
-
-Lemma replace_no_k rep x : no_k x = true -> replace (s "kB") rep x = x.
-Proof. intros H. unfold replace. apply replace_fuel_no_k. exact H. Qed.
-
-Lemma no_k_app x y : no_k (x ++ y) = no_k x && no_k y.
-Proof. unfold no_k. apply forallb_app. Qed.
-
-Lemma digits_no_k ds : forallb is_digit ds = true -> no_k ds = true.
-Proof.
-  induction ds as [|c ds IH]; intros H; [reflexivity|]. cbn [forallb] in H. apply andb_true_iff in H.
-  destruct H as [Hc Hd]. unfold no_k. cbn [forallb]. fold (no_k ds). rewrite (IH Hd), andb_true_r.
-  unfold is_digit in Hc. apply andb_true_iff in Hc. destruct Hc as [_ Hc]. apply N.leb_le in Hc.
-  apply negb_true_iff. apply N.eqb_neq. lia.
-Qed.
-
-Lemma show_N_nonnil n : show_N n <> [].
-Proof. intros E. pose proof (parse_show_N n) as H. rewrite E in H. discriminate. Qed.
-
-Lemma digits_val_show_N n : digits_val (show_N n) = Z.of_N n.
-Proof.
-  pose proof (parse_show_N n) as H. unfold digits_val. unfold parse_N in H.
-  destruct (show_N n); [discriminate|]. rewrite H. reflexivity.
-Qed.
-
-(* the two decimals *)
-Definition frac_ok (F : N) : bool :=
-  negb (F <? 100)%N ||
-  (forallb is_digit (pad_left 2 (show_N F)) && (length (pad_left 2 (show_N F)) =? 2)%nat &&
-   (digits_val (pad_left 2 (show_N F)) =? Z.of_N F)).
-
-Lemma frac_ok_all : forallb frac_ok (below_pow2 7) = true.
-Proof. vm_compute. reflexivity. Qed.
-
-Lemma frac_text F : (F < 100)%N ->
-  forallb is_digit (pad_left 2 (show_N F)) = true /\ length (pad_left 2 (show_N F)) = 2%nat /\
-  digits_val (pad_left 2 (show_N F)) = Z.of_N F.
-Proof.
-  intros H. pose proof (forall_below_pow2 7 frac_ok frac_ok_all F) as G.
-  assert (HF : (F < 2 ^ N.of_nat 7)%N) by (change (2 ^ N.of_nat 7)%N with 128%N; lia).
-  specialize (G HF). unfold frac_ok in G.
-  assert (L : (F <? 100)%N = true) by (apply N.ltb_lt; exact H). rewrite L in G. cbn [negb orb] in G.
-  apply andb_true_iff in G. destruct G as [G G3]. apply andb_true_iff in G. destruct G as [G1 G2].
-  apply Nat.eqb_eq in G2. apply Z.eqb_eq in G3. auto.
-Qed.
-
-Lemma read_int ds u U :
-  ds <> [] -> forallb is_digit ds = true -> In (u, U) iec_units ->
-  read_rendered (ds ++ u) = Some (digits_val ds * 100 * U, U, 0).
-Proof.
-  intros Hne Hd Hin. unfold iec_units in Hin. cbn [In] in Hin.
-  destruct ds as [|c ds]; [congruence|].
-  repeat (destruct Hin as [Hin|Hin];
-          [apply pair_equal_spec in Hin; destruct Hin as [<- <-]; unfold read_rendered;
-           lazymatch goal with |- context [span_digits (_ ++ ?r)] =>
-             rewrite (span_digits_all (c :: ds) r Hd eq_refl) end; reflexivity|]).
-  contradiction.
-Qed.
-
-Lemma read_frac ds fs u U :
-  ds <> [] -> forallb is_digit ds = true -> forallb is_digit fs = true -> length fs = 2%nat ->
-  In (u, U) iec_units ->
-  read_rendered (ds ++ 46%N :: fs ++ u) = Some ((digits_val ds * 100 + digits_val fs) * U, U, 2).
-Proof.
-  intros Hne Hd Hf Hl Hin. unfold iec_units in Hin. cbn [In] in Hin.
-  destruct ds as [|c ds]; [congruence|].
-  repeat (destruct Hin as [Hin|Hin];
-          [apply pair_equal_spec in Hin; destruct Hin as [<- <-]; unfold read_rendered;
-           lazymatch goal with |- context [span_digits (_ ++ ?r)] =>
-             rewrite (span_digits_all (c :: ds) r Hd eq_refl) end; cbv beta iota;
-           lazymatch goal with |- context [span_digits (fs ++ ?r)] =>
-             rewrite (span_digits_all fs r Hf eq_refl) end; cbv beta iota; rewrite Hl; reflexivity|]).
-  contradiction.
-Qed.
-
-(* ================================================================== *)
-(* 6. the bridge: render n in terms of rnd53 / cfun *)
-
-Definition opts0 : hs_options :=
-  {| o_kilo := KBinary; o_units := KBinary; o_decimal_places := 2; o_decimal_zeroes := 0;
-     o_fixed_at := None; o_space := false |}.
-
-Lemma render_unfold n :
-  format_filesize n [] =
-  match hs_format_size n opts0 with Ok r0 => Ok (replace (s "kB") (s "KB") r0) | other => other end.
-Proof. reflexivity. Qed.
-
-Lemma unit_table k : (k <= 6)%nat ->
-  exists u, nth_error scale_binary k = Some u /\ In (u, upow (Z.of_nat k)) iec_units /\ no_k u = true.
-Proof.
-  intros H.
-  destruct k as [|[|[|[|[|[|[|k]]]]]]];
-    [exists (s "B")|exists (s "KiB")|exists (s "MiB")|exists (s "GiB")|exists (s "TiB")|exists (s "PiB")|exists (s "EiB")|lia];
-    (split; [reflexivity|split; [|reflexivity]]); unfold iec_units; cbn [In];
-    repeat (first [left; reflexivity|right]).
-Qed.
-
-Lemma hs_format_spec n m e :
-  of_Z (Z.of_N n) = FFin false m e -> p52 <= m < p53 -> -52 <= e <= 12 ->
-  let k := Z.to_nat ((e + 52) / 10) in
-  let x := FFin false m (e - 10 * Z.of_nat k) in
-  exists u, nth_error scale_binary k = Some u /\ In (u, upow (Z.of_nat k)) iec_units /\ no_k u = true /\
-    hs_format_size n opts0 = Ok (show_prec (if frac_negligible x then 0 else 2)%nat x ++ u).
-Proof.
-  intros Hof Hm He k x.
-  assert (Hk : 0 <= (e + 52) / 10 <= 6) by (Z.div_mod_to_equations; lia).
-  assert (Hk6 : (k <= 6)%nat) by (unfold k; lia).
-  assert (Hke : -52 <= e - 10 * Z.of_nat k <= -43) by (unfold k; rewrite Z2Nat.id by lia; Z.div_mod_to_equations; lia).
-  destruct (unit_table k Hk6) as (u & Hu & Hin & Hnk).
-  exists u. split; [exact Hu|]. split; [exact Hin|]. split; [exact Hnk|].
-  unfold hs_format_size, hs_parts. cbn [opts0 o_kilo o_units o_decimal_places o_decimal_zeroes o_fixed_at o_space].
-  rewrite kilo_binary. unfold of_u64. rewrite Hof.
-  rewrite (div_auto_steps k 9 m e 0) by lia. cbn [Nat.add]. fold x.
-  rewrite Hu. destruct (frac_negligible x); reflexivity.
-Qed.
-
-Lemma show_prec_0 m e : e < 0 ->
-  show_prec 0 (FFin false m e) = show_N (Z.to_N (div_rne m (2 ^ (- e)))).
-Proof.
-  intros He. unfold show_prec.
-  assert (G : (0 <=? e) = false) by (apply Z.leb_gt; exact He). rewrite G.
-  cbn [Nat.min Nat.sub repeat]. unfold show_fixed. cbn [app].
-  change (10 ^ Z.of_nat 0) with 1. rewrite Z.mul_1_r, Z.div_1_r, !app_nil_r. reflexivity.
-Qed.
-
-Lemma show_prec_2 m e : e <= -2 ->
-  show_prec 2 (FFin false m e) =
-  show_N (Z.to_N (div_rne (m * 100) (2 ^ (- e)) / 100)) ++
-  46%N :: pad_left 2 (show_N (Z.to_N (div_rne (m * 100) (2 ^ (- e)) mod 100))).
-Proof.
-  intros He. unfold show_prec.
-  assert (G : (0 <=? e) = false) by (apply Z.leb_gt; lia). rewrite G.
-  rewrite (Nat.min_l 2 (Z.to_nat (- e))) by lia.
-  cbn [Nat.sub repeat]. unfold show_fixed. cbn [app].
-  change (10 ^ Z.of_nat 2) with 100. rewrite app_nil_r. reflexivity.
-Qed.
-
-Lemma div_rne_near a r Y : 0 <= r -> 2 * r < Y -> div_rne (a * Y + r) Y = a.
-Proof.
-  intros Hr HY. unfold div_rne.
-  assert (D : (a * Y + r) / Y = a) by (symmetry; apply (Z.div_unique _ _ a r); lia).
-  assert (M : (a * Y + r) mod Y = r) by (symmetry; apply (Z.mod_unique _ _ a r); lia).
-  rewrite D, M. destruct (Z.compare_spec (2 * r) Y); lia.
-Qed.
-
-(* "no fractional part" (fraction 0 or at most 2^-52): the 2-decimal rounding is the integer *)
-Lemma negligible_div m j : p52 <= m < p53 -> 43 <= j <= 52 ->
-  (m mod 2 ^ j) * p52 <= 2 ^ j ->
-  0 <= div_rne m (2 ^ j) /\ div_rne (100 * m) (2 ^ j) = 100 * div_rne m (2 ^ j).
-Proof.
-  intros Hm Hj Hf.
-  assert (HP : 0 < 2 ^ j) by (apply pow2_pos; lia).
-  assert (H43 : 2 ^ 43 <= 2 ^ j) by (apply pow2_le; lia).
-  assert (H52 : 2 ^ j <= p52) by (rewrite p52_eq; apply pow2_le; lia).
-  change (2 ^ 43) with 8796093022208 in H43.
-  pose proof (Z.div_mod m (2 ^ j) ltac:(lia)) as E. pose proof (Z.mod_pos_bound m (2 ^ j) HP) as B.
-  set (I := m / 2 ^ j) in *. set (f := m mod 2 ^ j) in *.
-  assert (Hf1 : f <= 1) by (unfold p52 in *; nia).
-  assert (HI : 0 <= I) by (unfold p52 in *; nia).
-  assert (E1 : div_rne m (2 ^ j) = I) by (rewrite E; rewrite (Z.mul_comm (2 ^ j) I); apply div_rne_near; lia).
-  assert (E2 : div_rne (100 * m) (2 ^ j) = 100 * I).
-  { replace (100 * m) with ((100 * I) * 2 ^ j + 100 * f) by (rewrite E at 1; ring). apply div_rne_near; lia. }
-  rewrite E1, E2. split; [exact HI|reflexivity].
-Qed.
-
-Lemma show_read m j u U :
-  p52 <= m < p53 -> 43 <= j <= 52 -> In (u, U) iec_units -> no_k u = true ->
-  let x := FFin false m (- j) in
-  let t := show_prec (if frac_negligible x then 0 else 2)%nat x ++ u in
-  no_k t = true /\ exists places, read_rendered t = Some (div_rne (100 * m) (2 ^ j) * U, U, places).
-Proof.
-  intros Hm Hj Hin Hnk x t. unfold t, x. clear t x.
-  assert (HP : 0 < 2 ^ j) by (apply pow2_pos; lia).
-  destruct (frac_negligible (FFin false m (- j))) eqn:FN.
-  - rewrite show_prec_0 by lia. rewrite Z.opp_involutive.
-    unfold frac_negligible in FN.
-    assert (G : (0 <=? - j) = false) by (apply Z.leb_gt; lia). rewrite G, Z.opp_involutive in FN.
-    apply Z.leb_le in FN. destruct (negligible_div m j Hm Hj FN) as [H0 HE].
-    split.
-    + rewrite no_k_app, Hnk, andb_true_r. apply digits_no_k, show_N_digits.
-    + exists 0. rewrite (read_int _ u U (show_N_nonnil _) (show_N_digits _) Hin).
-      rewrite digits_val_show_N, Z2N.id by exact H0. rewrite HE. do 2 f_equal. f_equal. ring.
-  - rewrite show_prec_2 by lia. rewrite Z.opp_involutive. rewrite (Z.mul_comm m 100).
-    set (R := div_rne (100 * m) (2 ^ j)).
-    assert (HR : 0 <= R) by (apply div_rne_nonneg; unfold p52 in *; lia).
-    assert (HRd : 0 <= R / 100) by (apply Z.div_pos; lia).
-    pose proof (Z.mod_pos_bound R 100 ltac:(lia)) as HRm.
-    assert (HF : (Z.to_N (R mod 100) < 100)%N) by lia.
-    destruct (frac_text _ HF) as (F1 & F2 & F3).
-    split.
-    + rewrite !no_k_app, Hnk, andb_true_r. apply andb_true_iff. split; [apply digits_no_k, show_N_digits|].
-      unfold no_k. cbn [forallb]. fold (no_k (pad_left 2 (show_N (Z.to_N (R mod 100))))).
-      rewrite (digits_no_k _ F1). reflexivity.
-    + exists 2. rewrite <- app_assoc. cbn [app].
-      rewrite (read_frac _ _ u U (show_N_nonnil _) (show_N_digits _) F1 F2 Hin).
-      rewrite digits_val_show_N, F3, !Z2N.id by lia. do 2 f_equal. f_equal.
-      pose proof (Z.div_mod R 100 ltac:(lia)). lia.
-Qed.
-
-Lemma cfun_of_parts m e V :
-  p52 <= m < p53 -> -52 <= e <= 12 -> m * 2 ^ (e + 52) = V * 2 ^ 52 ->
-  unit_ix V = (e + 52) / 10 /\
-  div_rne (100 * m) (2 ^ (10 * ((e + 52) / 10) - e)) = div_rne (100 * V) (upow ((e + 52) / 10)).
-Proof.
-  intros Hm He Hval.
-  assert (HPe : 0 < 2 ^ (e + 52)) by (apply pow2_pos; lia).
-  assert (HV : 0 < V).
-  { assert (Hpos : 0 < m * 2 ^ (e + 52)) by (apply Z.mul_pos_pos; unfold p52 in *; lia).
-    rewrite Hval in Hpos. change (2 ^ 52) with 4503599627370496 in Hpos. lia. }
-  assert (Lm : Z.log2 m = 52) by (apply Z.log2_unique; [lia|rewrite <- p52_eq; change (2 ^ Z.succ 52) with p53; lia]).
-  assert (LV : Z.log2 V = e + 52).
-  { pose proof (f_equal Z.log2 Hval) as HL.
-    rewrite !Z.log2_mul_pow2 in HL by (unfold p52 in *; lia). lia. }
-  assert (Hk : 0 <= (e + 52) / 10 <= 6) by (Z.div_mod_to_equations; lia).
-  assert (Hke : 43 <= 10 * ((e + 52) / 10) - e <= 52) by (Z.div_mod_to_equations; lia).
-  split; [unfold unit_ix; rewrite LV; reflexivity|].
-  set (k := (e + 52) / 10) in *. unfold upow.
-  rewrite <- (div_rne_scale (100 * V) (2 ^ (10 * k)) (2 ^ 52)) by (try apply pow2_pos; lia).
-  rewrite <- (div_rne_scale (100 * m) (2 ^ (10 * k - e)) (2 ^ (e + 52))) by (try apply pow2_pos; lia).
-  rewrite <- !pow2_add by lia. replace (10 * k - e + (e + 52)) with (10 * k + 52) by lia.
-  f_equal. rewrite <- !Z.mul_assoc. rewrite Hval. reflexivity.
-Qed.
-
-(* THE BRIDGE *)
-Lemma render_read n :
-  0 < Z.of_N n < 2 ^ 64 ->
-  exists places,
-    read_rendered (render n) =
-    Some (cfun (rnd53 (Z.of_N n)), upow (unit_ix (rnd53 (Z.of_N n))), places).
-Proof.
-  intros Hn. destruct (of_Z_spec (Z.of_N n) Hn) as (m & e & Hof & Hm & He & Hval).
-  destruct (hs_format_spec n m e Hof Hm He) as (u & _ & Hin & Hnk & Hfmt). cbv zeta in Hfmt.
-  destruct (cfun_of_parts m e _ Hm He Hval) as [Hix Hdiv].
-  assert (Hk : 0 <= (e + 52) / 10 <= 6) by (Z.div_mod_to_equations; lia).
-  rewrite Z2Nat.id in Hfmt, Hin by lia.
-  set (k := (e + 52) / 10) in *.
-  assert (Hj : 43 <= 10 * k - e <= 52) by (unfold k; Z.div_mod_to_equations; lia).
-  replace (e - 10 * k) with (- (10 * k - e)) in Hfmt by lia.
-  destruct (show_read m (10 * k - e) u (upow k) Hm Hj Hin Hnk) as [Hno (places & Hrd)].
-  cbv zeta in Hno, Hrd.
-  exists places. unfold render. rewrite render_unfold, Hfmt.
-  rewrite (replace_no_k _ _ Hno). rewrite Hrd. unfold cfun. rewrite Hix, Hdiv. reflexivity.
-Qed.
-
-Lemma render_zero : read_rendered (render 0) = Some (0, 1, 0).
-Proof. vm_compute. reflexivity. Qed.
-
-Lemma rendered_centibytes_eq n :
-  0 < Z.of_N n < 2 ^ 64 -> rendered_centibytes n = cfun (rnd53 (Z.of_N n)).
-Proof.
-  intros Hn. destruct (render_read n Hn) as [places H].
-  unfold rendered_centibytes, centibytes_of. rewrite H. reflexivity.
-Qed.
-
-(* ================================================================== *)
-(* 7. the theorems *)
-
-(* (G2) the value of the rendered text is monotone in the size, for EVERY u64 *)
-Theorem format_monotone_all a b :
-  (a <= b)%N -> (b < 2 ^ 64)%N -> rendered_centibytes a <= rendered_centibytes b.
-Proof.
-  intros Hab Hb.
-  assert (Hb' : Z.of_N b < 2 ^ 64) by (change (2 ^ 64) with (Z.of_N (2 ^ 64)); lia).
-  destruct (N.eq_dec a 0) as [->|Ha].
-  - destruct (N.eq_dec b 0) as [->|Hb0]; [lia|].
-    rewrite (rendered_centibytes_eq b) by lia.
-    unfold rendered_centibytes, centibytes_of. rewrite render_zero.
-    apply cfun_nonneg. apply rnd53_pos. lia.
-  - rewrite (rendered_centibytes_eq a), (rendered_centibytes_eq b) by lia.
-    apply cfun_mono. split; [apply rnd53_pos; lia|apply rnd53_mono; lia].
-Qed.
-
-(* the double nearest to n, as a number (2^64 for the sizes that round up to it) *)
-Definition f64_value (n : N) : N := Z.to_N (rnd53 (Z.of_N n)).
-
-Lemma accurate_text_intro t v U places n :
-  read_rendered t = Some (v, U, places) -> 0 < U -> 2 * Z.abs (v - 100 * Z.of_N n) <= U ->
-  accurate_text t n = true.
-Proof.
-  intros Hr HU H. unfold accurate_text. rewrite Hr. apply Z.leb_le. destruct (places =? 2); lia.
-Qed.
-
-(* (G1), general form: for EVERY u64 the text is within half a unit of its last displayed
-   digit of the f64 the size is converted to *)
-Theorem format_accurate_f64_all n :
-  (n < 2 ^ 64)%N -> accurate_text (render n) (f64_value n) = true.
-Proof.
-  intros Hn.
-  assert (Hn' : Z.of_N n < 2 ^ 64) by (change (2 ^ 64) with (Z.of_N (2 ^ 64)); lia).
-  destruct (N.eq_dec n 0) as [->|H0]; [vm_compute; reflexivity|].
-  assert (Hpos : 0 < Z.of_N n < 2 ^ 64) by lia.
-  destruct (render_read n Hpos) as [places Hr].
-  pose proof (rnd53_pos (Z.of_N n) ltac:(lia)) as HV.
-  destruct (unit_ix_bounds _ HV) as [HK _].
-  apply (accurate_text_intro _ _ _ _ _ Hr (upow_pos _ HK)).
-  unfold f64_value. rewrite Z2N.id by lia. apply cfun_accurate. exact HV.
-Qed.
-
-(* ... hence of the size itself whenever the conversion u64 -> f64 is exact *)
-Theorem format_accurate_exact n :
-  (n < 2 ^ 64)%N -> f64_value n = n -> accurate n = true.
-Proof. intros Hn He. unfold accurate. rewrite <- He at 2. apply format_accurate_f64_all. exact Hn. Qed.
-
-Lemma f64_value_small n : (n < 2 ^ 53)%N -> f64_value n = n.
-Proof.
-  intros Hn. unfold f64_value. destruct (N.eq_dec n 0) as [->|H0]; [vm_compute; reflexivity|].
-  assert (Hn' : Z.of_N n < p53) by (change p53 with (Z.of_N (2 ^ 53)); lia).
-  rewrite rnd53_small by lia. apply N2Z.id.
-Qed.
-
-(* FULL STATEMENT (G1), FALSE (see format_accurate_all_refuted):
-     forall n, (n < 2^64)%N -> accurate n = true.
-   PROVED PART: every size below 2^53 (where u64 -> f64 is exact); with
-   format_accurate_exact also every larger size that is a double. *)
-Theorem format_accurate_partial n : (n < 2 ^ 53)%N -> accurate n = true.
-Proof.
-  intros Hn. apply format_accurate_exact; [|apply f64_value_small; exact Hn].
-  apply (N.lt_trans _ _ _ Hn). reflexivity.
-Qed.
-
-(* REFUTATION of the full (G1).  In the first binade where odd sizes are not doubles:
-     n     = 9046605751480483 = 2^53 + 39406496739491 = 8.03499999999999925... PiB  (should print 8.03)
-     n + 1 = (n as f64)                               = 8.03500000000000014... PiB  (prints 8.04)
-   the u64 -> f64 conversion crosses the rounding boundary of the second decimal:
-   2 * |804 * 2^50 - 100 n| = 2^50 + 168 > 2^50 = one unit of the last displayed digit. *)
-Theorem format_accurate_all_refuted :
-  exists n, (n < 2 ^ 64)%N /\ accurate n = false.
-Proof. exists 9046605751480483%N. split; vm_compute; reflexivity. Qed.
-
-(* what does hold for every u64: half a unit of the last digit plus the conversion error
-   (at most 2^(log2 n - 53) bytes, rnd53_err; zero below 2^53, rnd53_small) *)
-Theorem format_accuracy_all n :
-  (0 < n < 2 ^ 64)%N ->
-  exists v U places,
-    read_rendered (render n) = Some (v, U, places) /\ 0 < U /\
-    2 * Z.abs (v - 100 * Z.of_N n) <= U + 200 * Z.abs (rnd53 (Z.of_N n) - Z.of_N n) /\
-    2 * Z.abs (rnd53 (Z.of_N n) - Z.of_N n) <= 2 ^ Z.max 0 (Z.log2 (Z.of_N n) - 52).
-Proof.
-  intros Hn.
-  assert (Hn' : Z.of_N n < 2 ^ 64) by (change (2 ^ 64) with (Z.of_N (2 ^ 64)); lia).
-  assert (Hpos : 0 < Z.of_N n < 2 ^ 64) by lia.
-  destruct (render_read n Hpos) as [places Hr].
-  pose proof (rnd53_pos (Z.of_N n) ltac:(lia)) as HV.
-  destruct (unit_ix_bounds _ HV) as [HK _].
-  eexists. eexists. exists places. split; [exact Hr|]. split; [apply upow_pos; exact HK|].
-  pose proof (cfun_accurate _ HV) as HA. pose proof (rnd53_err (Z.of_N n) ltac:(lia)) as HE.
-  split; [lia|exact HE].
-Qed.
-
-(* ================================================================== *)
-(* 8. the exact shape of the rendered text *)
-
-Definition txt2 (R : Z) (u : str) : str :=
-  show_N (Z.to_N (R / 100)) ++ 46%N :: pad_left 2 (show_N (Z.to_N (R mod 100))) ++ u.
-
-Lemma show_text m j :
-  p52 <= m < p53 -> 43 <= j <= 52 ->
-  let x := FFin false m (- j) in
-  let R := div_rne (100 * m) (2 ^ j) in
-  100 <= R <= 102400 /\
-  ((frac_negligible x = true /\ R mod 100 = 0 /\ show_prec 0 x = show_N (Z.to_N (R / 100))) \/
-   (frac_negligible x = false /\ 0 < m mod 2 ^ j /\
-    show_prec 2 x = show_N (Z.to_N (R / 100)) ++ 46%N :: pad_left 2 (show_N (Z.to_N (R mod 100))))).
-Proof.
-  intros Hm Hj x R. unfold x.
-  assert (HP : 0 < 2 ^ j) by (apply pow2_pos; lia).
-  assert (H43 : 2 ^ 43 <= 2 ^ j) by (apply pow2_le; lia).
-  assert (H52 : 2 ^ j <= p52) by (rewrite p52_eq; apply pow2_le; lia).
-  change (2 ^ 43) with 8796093022208 in H43.
-  split.
-  - unfold R. split; [apply div_rne_ge_lower|apply div_rne_le_upper]; unfold p52, p53 in *; lia.
-  - unfold frac_negligible.
-    assert (G : (0 <=? - j) = false) by (apply Z.leb_gt; lia). rewrite G, Z.opp_involutive.
-    destruct (m mod 2 ^ j * p52 <=? 2 ^ j) eqn:FN.
-    + left. apply Z.leb_le in FN. destruct (negligible_div m j Hm Hj FN) as [H0 HE].
-      split; [reflexivity|]. unfold R. rewrite HE. rewrite (Z.mul_comm 100).
-      split; [apply Z.mod_mul; lia|]. rewrite Z.div_mul by lia.
-      rewrite show_prec_0 by lia. rewrite Z.opp_involutive. reflexivity.
-    + right. apply Z.leb_gt in FN. split; [reflexivity|].
-      pose proof (Z.mod_pos_bound m (2 ^ j) HP) as B.
-      split; [unfold p52 in *; nia|].
-      rewrite show_prec_2 by lia. rewrite Z.opp_involutive, (Z.mul_comm m 100). reflexivity.
-Qed.
-
-Lemma render_shape n :
-  0 < Z.of_N n < 2 ^ 64 ->
-  let V := rnd53 (Z.of_N n) in
-  exists (k : nat) u,
-    Z.of_nat k = unit_ix V /\ (k <= 6)%nat /\ nth_error scale_binary k = Some u /\
-    let R := div_rne (100 * V) (upow (Z.of_nat k)) in
-    100 <= R <= 102400 /\
-    ((R mod 100 = 0 /\ render n = show_N (Z.to_N (R / 100)) ++ u) \/
-     ((1 <= k)%nat /\ render n = txt2 R u)).
-Proof.
-  intros Hn V. destruct (of_Z_spec (Z.of_N n) Hn) as (m & e & Hof & Hm & He & Hval). fold V in Hval.
-  destruct (hs_format_spec n m e Hof Hm He) as (u & Hu & Hin & Hnk & Hfmt). cbv zeta in Hfmt.
-  destruct (cfun_of_parts m e _ Hm He Hval) as [Hix Hdiv].
-  assert (Hk : 0 <= (e + 52) / 10 <= 6) by (Z.div_mod_to_equations; lia).
-  exists (Z.to_nat ((e + 52) / 10)), u.
-  rewrite Z2Nat.id in * by lia.
-  set (k := (e + 52) / 10) in *.
-  assert (Hj : 43 <= 10 * k - e <= 52) by (unfold k; Z.div_mod_to_equations; lia).
-  replace (e - 10 * k) with (- (10 * k - e)) in Hfmt by lia.
-  split; [symmetry; exact Hix|]. split; [lia|]. split; [exact Hu|]. cbv zeta. rewrite <- Hdiv.
-  destruct (show_text m (10 * k - e) Hm Hj) as [HR Hcase]. cbv zeta in HR, Hcase.
-  split; [exact HR|].
-  destruct (show_read m (10 * k - e) u (upow k) Hm Hj Hin Hnk) as [Hno _]. cbv zeta in Hno.
-  unfold render. rewrite render_unfold, Hfmt. rewrite (replace_no_k _ _ Hno).
-  destruct Hcase as [(FN & Hmod & Htxt)|(FN & Hfr & Htxt)]; rewrite FN; rewrite Htxt.
-  - left. split; [exact Hmod|reflexivity].
-  - right. split.
-    + destruct (Z.eq_dec k 0) as [K0|K0]; [exfalso|lia].
-      rewrite K0 in *. replace (10 * 0 - e) with (- e) in * by lia.
-      assert (E : m = V * 2 ^ (- e)).
-      { assert (HPe : 0 < 2 ^ (e + 52)) by (apply pow2_pos; lia).
-        apply (Z.mul_reg_r _ _ (2 ^ (e + 52))); [lia|].
-        rewrite Hval, <- Z.mul_assoc, <- pow2_add by lia. do 2 f_equal. lia. }
-      rewrite E, Z.mod_mul in Hfr by (pose proof (pow2_pos (- e) ltac:(lia)); lia). lia.
-    + unfold txt2. rewrite <- app_assoc. reflexivity.
-Qed.
-
-(* ================================================================== *)
-(* 9. reading the text back with parse_filesize (units B .. TiB) *)
-
-Lemma unit_table_parse k : (k <= 4)%nat ->
-  exists u u', nth_error scale_binary k = Some u /\
-    unit_multiplier u' = Some (upow (Z.of_nat k)) /\ spelling_of u' u /\
-    ((1 <= k)%nat -> u' <> s "b" /\ u' <> [] /\ unit_factors u' = repeat 1024 k).
-Proof.
-  intros H.
-  destruct k as [|[|[|[|[|k]]]]];
-    [exists (s "B"), (s "b")|exists (s "KiB"), (s "kib")|exists (s "MiB"), (s "mib")
-    |exists (s "GiB"), (s "gib")|exists (s "TiB"), (s "tib")|lia];
-    (split; [reflexivity|split; [vm_compute; reflexivity|split; [vm_compute; reflexivity|]]]);
-    intros Hk; try lia;
-    (split; [intros E; vm_compute in E; discriminate E|split; [intros E; vm_compute in E; discriminate E|vm_compute; reflexivity]]).
-Qed.
-
-Lemma parse_digits_shift x : forall a,
-  parse_digits a x = option_map (fun v => (a * 10 ^ N.of_nat (length x) + v)%N) (parse_digits 0 x).
-Proof.
-  induction x as [|c r IH]; intros a.
-  - cbn [parse_digits length option_map]. f_equal. change (10 ^ N.of_nat 0)%N with 1%N. lia.
-  - cbn [parse_digits]. destruct (is_digit c); [|reflexivity].
-    rewrite (IH (a * 10 + (c - 48))%N), (IH (0 * 10 + (c - 48))%N).
-    destruct (parse_digits 0 r) as [v|]; [|reflexivity]. cbn [option_map]. f_equal.
-    cbn [length]. rewrite Nat2N.inj_succ, N.pow_succ_r'. lia.
-Qed.
-
-Lemma parse_N_number R :
-  100 <= R ->
-  parse_N (show_N (Z.to_N (R / 100)) ++ pad_left 2 (show_N (Z.to_N (R mod 100)))) = Some (Z.to_N R).
-Proof.
-  intros HR.
-  assert (HRd : 0 <= R / 100) by (apply Z.div_pos; lia).
-  pose proof (Z.mod_pos_bound R 100 ltac:(lia)) as HRm.
-  assert (HF : (Z.to_N (R mod 100) < 100)%N) by lia.
-  destruct (frac_text _ HF) as (F1 & F2 & F3).
-  set (ds := show_N (Z.to_N (R / 100))). set (fs := pad_left 2 (show_N (Z.to_N (R mod 100)))) in *.
-  pose proof (parse_show_N (Z.to_N (R / 100))) as HI. fold ds in HI.
-  assert (Hne : ds <> []) by apply show_N_nonnil.
-  unfold parse_N in *. destruct ds as [|c ds']; [congruence|]. cbn [app].
-  change (c :: ds' ++ fs) with ((c :: ds') ++ fs). rewrite parse_digits_app, HI.
-  rewrite parse_digits_shift, F2.
-  unfold digits_val in F3. destruct (parse_digits_total fs 0%N F1) as [v Hv]. rewrite Hv in *. cbv beta iota in F3.
-  cbn [option_map]. f_equal. change (10 ^ N.of_nat 2)%N with 100%N.
-  pose proof (Z.div_mod R 100 ltac:(lia)). lia.
-Qed.
-
-Lemma of_Z_1024 : of_Z 1024 = FFin false p52 (-42).
-Proof. vm_compute. reflexivity. Qed.
-
-Lemma mul_1024 m e : p52 <= m < p53 -> -100 <= e <= 30 ->
-  mul (FFin false m e) (of_Z 1024) = FFin false m (e + 10).
-Proof.
-  intros Hm He. rewrite of_Z_1024. unfold mul. cbn [xorb].
-  apply round_ne_repr.
-  - left. split; [exact Hm|lia].
-  - rewrite shl_eq by lia. rewrite Z.mul_1_l. apply pow2_pos. lia.
-  - rewrite !shl_eq by lia. unfold BIAS. rewrite p52_eq.
-    rewrite (Z.max_l 0 (e + -42)) by lia. rewrite (Z.max_r 0 (- (e + -42))) by lia.
-    change (2 ^ 0) with 1. rewrite Z.mul_1_r, Z.mul_1_l.
-    rewrite <- !Z.mul_assoc, <- !pow2_add by lia. do 2 f_equal. lia.
-Qed.
-
-Lemma apply_factors_1024 : forall (k : nat) m e,
-  p52 <= m < p53 -> -100 <= e -> e + 10 * Z.of_nat k <= 40 ->
-  apply_factors (FFin false m e) (repeat 1024 k) = FFin false m (e + 10 * Z.of_nat k).
-Proof.
-  induction k as [|k IH]; intros m e Hm He Hk.
-  - cbn [repeat]. unfold apply_factors. cbn [fold_left]. f_equal. lia.
-  - cbn [repeat]. rewrite apply_factors_cons. rewrite Nat2Z.inj_succ in *. rewrite mul_1024 by lia.
-    rewrite IH by lia. f_equal. lia.
-Qed.
-
-(* Every 2-decimal text "I.ff" with 1.00 <= I.ff <= 1024.00 (R = 100 * I.ff), for every
-   unit KiB .. TiB: the literal is parsed to the double m * 2^e, and the value read back
-   p = trunc(m * 2^(e + 10 k)) is within half a unit of the last digit + 1 byte of EVERY size
-   n that is rendered as this text (|100 n - R U| <= U/2).  102301 texts, by evaluation. *)
-Definition rt_bounds (R k p : Z) : bool :=
-  let U := upow k in
-  (0 <=? p) && (200 * p - 200 * (- ((- (2 * R * U - U)) / 200)) <=? U + 200) &&
-  (200 * ((2 * R * U + U) / 200) - 200 * p <=? U + 200).
-
-Definition rt_chk (R : Z) : bool :=
-  match round_ne false R 100 with
-  | FFin false m e =>
-      (p52 <=? m) && (m <? p53) && (-60 <=? e) && (e <=? 0) &&
-      forallb (fun k => rt_bounds R k (to_u64 (FFin false m (e + 10 * k)))) [1; 2; 3; 4]
-  | _ => false
-  end.
-
-Definition rt_chk_range (x : N) : bool :=
-  if (x <? 100)%N then true else if (102400 <? x)%N then true else rt_chk (Z.of_N x).
-
-Lemma rt_chk_all : forallb rt_chk_range (below_pow2 17) = true.
-Proof. vm_cast_no_check (eq_refl true). Qed.
 
 Lemma rt_chk_spec R k :
   100 <= R <= 102400 -> 1 <= k <= 4 ->
